@@ -131,6 +131,9 @@ func (l *Log) addChainOrPreChain(ctx context.Context, reqBody io.ReadCloser, che
 
 	body, err := io.ReadAll(reqBody)
 	if err != nil {
+		if errors.As(err, new(*http.MaxBytesError)) {
+			return nil, http.StatusRequestEntityTooLarge, fmtErrorf("request body too large: %w", err)
+		}
 		return nil, http.StatusInternalServerError, fmtErrorf("failed to read body: %w", err)
 	}
 	var req struct {
